@@ -129,7 +129,14 @@ fn gen_cmd(rng: &mut Rng, tok: &mut u32) -> Argv {
             *tok += 1;
             vec![b("ECHO"), format!("tok{}", tok).into_bytes()]
         }
-        25 => vec![case_mix(rng, "PING")],
+        25 => {
+            if rng.gen_bool(0.7) {
+                vec![case_mix(rng, "PING")]
+            } else {
+                // complete frames shorter than any real command (11-12 bytes): unknown one-letter commands
+                vec![b(["X", "q", "ZZ"][rng.gen_range(0..3)])]
+            }
+        }
         26 => vec![b("NOSUCHCMD"), k],
         27 => {
             if rng.gen_bool(0.5) {
